@@ -683,4 +683,15 @@ def replay(ctx, path):
     print(json.dumps({k: v for k, v in r.items() if k != "script"}, indent=1)[:3000])
     if r.get("script"):
         return run(ctx, scripts=[("replay", r["script"], None, None)])
+    if r.get("kind") == "dups" and r.get("args"):
+        # re-run the duplicate-key scenario with the recorded seed / sizes on the current tree
+        ctx.build.boot()
+        hx = ctx.build.harness("asan", "c03pool", [HARNESS_SRC])
+        rc, out, err = run_cmd([hx] + [str(a) for a in r["args"]], timeout=3000, env=ENV)
+        laws = [l for l in out.decode(errors="replace").splitlines() if l.startswith("law ")]
+        for l in laws[:10]:
+            print(l)
+        if laws or rc != 0:
+            ctx.violation("dups:" + (laws[0].split(" ")[1] if laws else "crash"), dict(r, laws=laws[:10]), what="replay: %s" % (laws[0] if laws else "rc=%s" % rc))
+        return ctx.finish("proof", {"evaluations": int(r["args"][2]), "distinct_nontrivial": int(r["args"][2]), "rule": "replay of the duplicate-key scenario", "samples": laws[:3]})
     return run(ctx)
